@@ -253,7 +253,7 @@ def space(tier):
         else:
             cuts = list(range(1, n)) if n <= 700 else sorted({rng.randrange(1, n) for _ in range(300)})
         return {"ops": ops, "cuts": cuts, "gap0": rng.random() < 0.3}
-    sp.add("random", 12000 if tier == "quick" else 1_500_000, rnd)
+    sp.add("random", 40000 if tier == "quick" else 1_500_000, rnd)
     return sp
 
 
